@@ -80,7 +80,28 @@ static void execute(const char * kind, const unsigned char * lit, int n) {
     res.f = -7.25f; res.d = -7.25; res.b = 0;
     nerrs = 0;
     memset(eq, 0, sizeof eq);
-    SCPI_Init(&ctx, cmds, &itf, scpi_units_def, "MF", "MD", NULL, "1", ibuf, sizeof ibuf, eq, 8);
+    {
+        /* DRV_UNITS_LOWER: the unit table handed to SCPI_Init is a copy of the default one spelled in small letters
+           (a user table in SI spelling): suffixes are matched without regard to letter case, in the table as in the input */
+        const scpi_unit_def_t * units = scpi_units_def;
+        if (getenv("DRV_UNITS_LOWER")) {
+            static scpi_unit_def_t low[256];
+            static char names[256][12];
+            size_t i, k;
+            for (i = 0; i < 255 && scpi_units_def[i].name; i++) {
+                for (k = 0; k < 11 && scpi_units_def[i].name[k]; k++) {
+                    char ch = scpi_units_def[i].name[k];
+                    names[i][k] = (char) ((ch >= 'A' && ch <= 'Z' && (i % 3 || k == 0)) ? ch + 32 : ch);   /* every third row keeps capitals behind its first letter */
+                }
+                names[i][k] = 0;
+                low[i] = scpi_units_def[i];
+                low[i].name = names[i];
+            }
+            low[i].name = NULL; low[i].unit = SCPI_UNIT_NONE; low[i].mult = 0;
+            units = low;
+        }
+        SCPI_Init(&ctx, cmds, &itf, units, "MF", "MD", NULL, "1", ibuf, sizeof ibuf, eq, 8);
+    }
     memcpy(msg, kind, k); msg[k] = ' ';
     memcpy(msg + k + 1, lit, n); msg[k + 1 + n] = '\n';
     input_ret = SCPI_Input(&ctx, msg, k + 2 + n);
